@@ -61,7 +61,9 @@ pub(crate) fn run() -> Result<(), Error> {
         csum,
         if changed { "changed" } else { "unchanged" }
     );
-    f.set_generated();
+    // (Whether the target is "generated" is for the redo that runs its script to say, when
+    // it installs the output.  Saying so here, for a target that has never been built, made
+    // a file the user puts there after a killed build look like redo's own: overwritten.)
     if changed {
         f.set_changed(ptx.state().env()); // update_stamp might skip this if mtime is identical
         f.set_checksum(csum);
